@@ -7,7 +7,8 @@
 (*   2 preset   0..9        3 extreme  LZMA_PRESET_EXTREME                     *)
 (*   4 lclppb   "lc-lp-pb" corners with lc+lp <= 4    5 mf   five match finders*)
 (*   6 mode     fast/normal 7 nice  nice_len          8 depth                  *)
-(*   9 dict     dictionary size   10 pdict  preset dictionary (raw only)       *)
+(*   9 dict     dictionary size   10 pdict  preset dictionary (raw only):      *)
+(*                                           no / small / huge                 *)
 (*  11 check    0,1,4,10    12 chain  filter chain shape                       *)
 (*  13 bsize    Block size of the threaded encoder    14 threads               *)
 (*  15 flush    none/sync/full flushes inside the input                        *)
@@ -28,8 +29,10 @@
 (* first, then repeatedly: take the first uncovered pair (rotated by Seed),    *)
 (* the least used entry point that admits it, and fill every other dimension   *)
 (* with the value that covers the most still uncovered pairs (ties rotated by  *)
-(* Seed and by the number of plans so far).  It stops when no admissible pair is uncovered (AllCovered, checked  *)
-(* as a POSTCONDITION-like invariant at the last state) or after MaxPlans.     *)
+(* Seed and by the number of plans so far).  One TLC step decides one          *)
+(* dimension (state variables are values: no lazy re-evaluation).  Pairs are   *)
+(* kept as integer codes in the set `unc`.  The behaviour ends when no         *)
+(* admissible pair is uncovered (invariant AllCovered) or after MaxPlans.      *)
 EXTENDS Naturals, Sequences, FiniteSets, TLC, Json
 
 CONSTANTS DimNames,      \* sequence of dimension names (strings), entry first
